@@ -129,12 +129,12 @@ class Kernels:
         return ex, ps
 
     # ------------------------------------------------------------------ generic pieces
-    def query(self, name, assertions, witness_terms, replay, prop, known_excl=None, describe=None):
+    def query(self, name, assertions, witness_terms, replay, prop, known_excl=None, describe=None, int_route=False):
         """assertions sat => violation candidate.  replay(model_values) -> (reproduced: bool, detail)"""
         if prop not in self.props:
             return None
         self.obl += 1
-        r, model, info = smt.check(assertions, timeout_s=self.timeout, cross=True)
+        r, model, info = smt.check(assertions, timeout_s=self.timeout, cross=True, int_route=int_route)
         self.res.sample({"obligation": name, "verdict": r, "solvers": info})
         if r == "unsat":
             self.discharged += 1
@@ -452,7 +452,7 @@ class Kernels:
                     excl.append(in_i32(z3.If(gop <= 1, G - I, I - G) + z3.If(z3.Or(gop == 1, gop == 3), z3.BitVecVal(1, 64), z3.BitVecVal(0, 64))))
             hit = self.query("C02/%s = declarative trip count (path %s)" % (name, [str(x) for x in p.pc if "gop" in str(x)][:2]),
                              p.pc + [spec, z3.SignExt(32, c) != n] + excl,
-                             {"i": i, "d": d, "gop": gop, "g": g, "n": n}, replay, "C02")
+                             {"i": i, "d": d, "gop": gop, "g": g, "n": n}, replay, "C02", int_route=True)
             if excl:
                 real = self.driver.kernels([("iterations", [-1073741824, 447, 0, 1082112783])])[0]
                 if real.get("some") and real["v"][0] != 4822941:
